@@ -145,8 +145,18 @@ def check(ctx: Ctx) -> str:
     for cname, s, a, guard in (("BlockReference", "__call__", "_async_call", "self._context.environment.is_async"), ("Macro", "_invoke", "_async_invoke", "self._environment.is_async")):
         ci = repo.cls(f"runtime:{cname}")
         sf = ci.methods[s]
-        sf2 = ast.parse(ast.unparse(sf)).body[0]
+        from ..normalize import clone as _clone
+        from ..normalize import norm as _norm2
+
+        # normal form first: a local naming self._context is inlined, so the dispatch test reads
+        # the same however the method is written; the rest is compared with the async form
+        sf2 = ast.parse(ast.unparse(_clone(_norm2(sf)))).body[0]
         guards = [s_ for s_ in sf2.body if isinstance(s_, ast.If) and ast.unparse(s_.test) == guard]
+        if len(guards) == 1 and guards[0].orelse:
+            # (the normal form attaches the statements after a leaving branch as its else)
+            rest_ = guards[0].orelse
+            guards[0].orelse = []
+            sf2.body = sf2.body[: sf2.body.index(guards[0]) + 1] + rest_
         ctx.check(len(guards) == 1 and f"self.{a}(" in ast.unparse(guards[0]), f"{cname}.{s}:dispatch", f"runtime:{cname}.{s}", "async dispatch", f"{cname}.{s} must hand over to {a} when the environment is async", f"src/jinja2/runtime.py:{sf.lineno}")
         sf2.body = [s_ for s_ in sf2.body if s_ not in guards]
         if cname == "Macro":
@@ -228,7 +238,24 @@ def check(ctx: Ctx) -> str:
     awaited = [g for v_, g in aw_rets.items() if v_.startswith("await ")]
     plain = aw_rets.get("value")
     # the value is awaited exactly on the path where it is awaitable, and returned untouched where it is not
-    ctx.check(len(awaited) == 1 and ("inspect.isawaitable(value)", True) in awaited[0] and plain is not None and ("inspect.isawaitable(value)", False) in plain, "auto_await", "async_utils:auto_await", "await only awaitables", "auto_await must await awaitables and return everything else unchanged", aw.loc())
+    # ... decided as a truth table over (is awaitable, is a common primitive), however the two
+    # tests are arranged or named: the value is awaited iff it is awaitable and not a primitive;
+    # every other path returns the value itself (t.cast(...) is the identity)
+    from ..normalize import clone as _cl
+
+    awc = _cl(aw.node)
+    plain_ok = True
+    for r_ in [x for x in ast.walk(awc) if isinstance(x, ast.Return) and x.value is not None]:
+        is_aw = isinstance(r_.value, ast.Await)
+        if not is_aw:
+            v_ = r_.value
+            while isinstance(v_, ast.Call) and astq.callee(v_) in ("t.cast", "typing.cast", "cast") and len(v_.args) == 2:
+                v_ = v_.args[1]
+            plain_ok = plain_ok and ast.unparse(v_) == "value"
+        r_.value = ast.Constant(value=is_aw)
+    tb_aw = astq.bool_table(awc, ["inspect.isawaitable(value)", "type(value) in _common_primitives"])
+    table_ok = all(v_ == (a_ and not p_) for (a_, p_), v_ in tb_aw.items())
+    ctx.check(table_ok and plain_ok or (len(awaited) == 1 and ("inspect.isawaitable(value)", True) in awaited[0] and plain is not None and ("inspect.isawaitable(value)", False) in plain), "auto_await", "async_utils:auto_await", "await only awaitables", "auto_await must await awaitables and return everything else unchanged", aw.loc())
     from .c22 import fresh_list_rule
 
     fresh_list_rule(ctx, "R7")
